@@ -232,6 +232,18 @@ def _robust(eng, case, front, typ, pkt):
     if loop.errors:
         exc = loop.errors[0].get('exception')
         eng.fail('no-unhandled-error-in-loop', exc_sig(exc) if exc is not None else str(loop.errors[0].get('message')))
+    if case.get('strict'):
+        # the delivered packet addresses nobody (a link-layer fragment): nothing may have happened when it was dropped,
+        # and the later valid Data / Interest are what the pending Interest and the handler see
+        eng.check(res.get('after_bad') is None and res.get('calls_after_bad') == 0, 'unrelated-state-unaffected',
+                  {'outcome_after_packet': repr(res.get('after_bad')), 'handler_calls': res.get('calls_after_bad')},
+                  sig='fragment-acted-upon')
+        if state & 1:
+            eng.check(res.get('r') == ('data', b'ok'), 'unrelated-state-unaffected', {'outcome': repr(res.get('r'))},
+                      sig='pending-interest-not-completed-by-the-genuine-data')
+        if state & 2:
+            eng.check(len(calls) == 1, 'unrelated-state-unaffected', {'handler_calls': len(calls)},
+                      sig='handler-calls')
     if state & 1:
         # the pending Interest for /a/b ends with Data: either the delivered packet itself was a matching Data /
         # Nack for it (then it legitimately addressed the Interest), or the later valid Data satisfies it
@@ -306,6 +318,27 @@ def h_robust_mut(eng, case):
     _robust(eng, case, case['front'], typ, pkt)
 
 
+def h_fragment(eng, case):
+    """an envelope with fragmentation headers (FragIndex >= 1, or FragCount >= 2), whatever complete packet its payload
+    happens to decode as, is dropped"""
+    from ndn.encoding import ndnlp_v2 as lp
+    P = _valid_packets()
+    payload = P[case['payload']][1]
+    pk = lp.LpPacket()
+    pk.lp_packet = lp.LpPacketValue()
+    sel = case['headers']
+    if sel == 'index':
+        pk.lp_packet.frag_index = eng.int('frag_index', 1, 2 ** 64 - 1)
+    elif sel == 'index+count':
+        pk.lp_packet.frag_index = eng.int('frag_index', 1, 2 ** 64 - 1)
+        pk.lp_packet.frag_count = eng.int('frag_count', 0, 2 ** 64 - 1)
+    else:
+        pk.lp_packet.frag_index = 0
+        pk.lp_packet.frag_count = eng.int('frag_count', 2, 2 ** 64 - 1)
+    pk.lp_packet.fragment = payload
+    _robust(eng, dict(case, strict=True), case['front'], 0x64, tobytes(pk.encode()))
+
+
 def h_udp(eng, case):
     """UdpFace: a datagram of arbitrary bytes must not raise out of datagram_received"""
     from ndn.transport.udp_face import UdpFace
@@ -345,13 +378,17 @@ def h_udp(eng, case):
     eng.reach('end')
 
 
-HARNESSES = {'frame_sym': h_frame_sym, 'frame_cuts': h_frame_cuts, 'robust_sym': h_robust_sym,
+HARNESSES = {'fragment': h_fragment, 'frame_sym': h_frame_sym, 'frame_cuts': h_frame_cuts, 'robust_sym': h_robust_sym,
              'robust_mut': h_robust_mut, 'udp': h_udp}
 
 
 def cases(tier, seed):
     quick = tier == 'quick'
     cs = []
+    for front in ('v2', 'v1'):
+        for payload in ('data', 'interest'):
+            for hs in ('index', 'index+count', 'count'):
+                cs.append(('fragment', {'front': front, 'state': 3, 'payload': payload, 'headers': hs}, {'weight': 3}))
     for n in range(0, (6 if quick else 9) + 1):
         cs.append(('frame_sym', {'n': n}, {'weight': 1 + n * n, 'split_depth': 5 if n >= 7 else None}))
     for seq, tail in (([0, 2], []), ([2, 3, 0], [5]), ([0, 0], [0xFD, 1]), ([1], []), ([3, 2], [6, 0xFE, 0, 0])):
